@@ -385,7 +385,7 @@ Lemma env_holder_rel m e o : holder_rel m (env_holder e) o -> env_rel m e (holde
 Proof.
   revert o. induction e as [|[x v] e IH]; intros o H; inversion H as [|a b l1 l2 [Hf Hv] Hr]; subst; cbn.
   - constructor.
-  - constructor; [|now apply IH]. cbn in *. split; [|exact Hv]. rewrite <- Hf. now rewrite N2Z.id.
+  - constructor; [|now apply IH]. cbn in *. split; [|exact Hv]. rewrite <- Hf. cbn. now rewrite N2Z.id.
 Qed.
 
 Lemma env_holder_ok e : env_ok e B -> hold_ok (env_holder e).
